@@ -28,3 +28,24 @@ Proof. split; eexists; vm_compute; reflexivity. Qed.
 Theorem C15_C16_combine_local : forall c s s', s_go s = s_go s' -> combine c s = combine c s'.
 Proof. exact combine_local. Qed.
 Print Assumptions C15_C16_combine_local.
+
+(** ** "tags only struct tags" - over the Go generator's data layer (Model/GoGen.v buildQueries,
+    Model/GoModels.v buildStructs; both compared with the generator's own values through the
+    hook): two settings that differ at most in emit_db_tags / emit_json_tags /
+    json_tags_case_style give the templates the same queries - same method names, commands,
+    parameter and result values, same field names and field types, the same choice between a
+    model struct and a row struct, in the same order - up to the tag of each struct field. *)
+From Verif Require Import Model.GoGen Model.GoModels Proofs.TagsOnly.
+
+Theorem C16_tag_options_change_only_tags_partial : forall st st' c l l' qs r r',
+  same_but_tags st st' -> structs_rel l l' ->
+  build_queries st c l qs = Ok r -> build_queries st' c l' qs = Ok r' ->
+  map erase_q r = map erase_q r'.
+Proof. exact tags_only_queries. Qed.
+Print Assumptions C16_tag_options_change_only_tags_partial.
+
+Theorem C16_tag_options_model_fields_partial : forall st st' c s t cols fs fs',
+  same_but_tags st st' ->
+  model_fields st c s t cols = Ok fs -> model_fields st' c s t cols = Ok fs' -> map erase_f fs = map erase_f fs'.
+Proof. intros st st' c s t cols fs fs' H. exact (model_fields_tags st st' c s t H cols fs fs'). Qed.
+Print Assumptions C16_tag_options_model_fields_partial.
